@@ -242,6 +242,12 @@ func runPick(c PickCase) core.Result {
 		for x := 0; x < np; x++ {
 			wasRequested[x], _ = requesters(x)
 		}
+		wsActive := false
+		for _, src := range sources {
+			if src.Downloader != nil {
+				wsActive = true // while a web seed downloads, peers fill gaps from the end (BEP 19): index order is not expected
+			}
+		}
 		pi, af := pk.PickFor(pe)
 		if pi == nil {
 			return
@@ -276,7 +282,7 @@ func runPick(c PickCase) core.Result {
 			lab["duplicate-download"] = true
 		}
 		// sequential rule
-		if c.Sequential && !pe.PeerChoking && !af {
+		if c.Sequential && !pe.PeerChoking && !af && !wsActive {
 			lowest := -1
 			edgePickable, fastPickable := false, false
 			for y := 0; y < np; y++ {
